@@ -127,6 +127,13 @@ def gen_module(rng, modname, with_async_gen=False):
                "    yield _r.yielded(_t, [a])\n    yield _r.yielded(_t, a)\n    yield _r.yielded(_t, (a, 'ab'))\n"
                "    yield _r.yielded(_t, 'ab')\n    yield _r.yielded(_t, {'k': 2.5})\n    yield _r.yielded(_t, 2.5)\n    _r.ret(_t, None)\n\n")
     funcs.append({"qual": "gen_mixed", "call": "gen_mixed", "kind": "generator", "mk": PARAM_SHAPES[0][2], "exit": "gen", "params": ["a"]})
+    # values of ONE runtime class with different types, one after the other: lists, tuples, dicts of different contents and
+    # class objects (a yield type that is built per value covers them all; one built per runtime class does not)
+    src.append("def gen_samekind(a):\n" + enter_line("gen_samekind", ["a"]) +
+               "    yield _r.yielded(_t, [1])\n    yield _r.yielded(_t, ['s'])\n    yield _r.yielded(_t, (1,))\n    yield _r.yielded(_t, (1, 's'))\n"
+               "    yield _r.yielded(_t, {1: 2})\n    yield _r.yielded(_t, {'k': None})\n    yield _r.yielded(_t, int)\n    yield _r.yielded(_t, str)\n"
+               "    _r.ret(_t, None)\n\n")
+    funcs.append({"qual": "gen_samekind", "call": "gen_samekind", "kind": "generator", "mk": PARAM_SHAPES[0][2], "exit": "gen", "params": ["a"]})
     for q in ("gen", "gen_ret", "gen_raise", "gen_delegate"):
         funcs.append({"qual": q, "call": q, "kind": "generator", "mk": PARAM_SHAPES[0][2], "exit": "gen", "params": ["a"]})
     # what it yields depends on the VALUE of its argument, not on its type: calls with the same argument and return types
